@@ -338,6 +338,13 @@ def run(prog, ctx):
                 l_assigns.append((st, lp))
             elif rp is not None:
                 r_assign = (st, rp)
+    if r_assign is None:
+        # the right-hand side may be written directly into the solve call
+        for x in R.calls_in(sm.node, method="lstsq"):
+            if len(x.args) >= 2:
+                rp = _right_parts(Terms(sm.node, max_depth=12).term(x.args[1]))
+                if rp is not None:
+                    r_assign = (x, rp)
     ctx.floor("C20.D2.dw", len(l_assigns) + (1 if r_assign else 0), 3, "normal-equation sites (dimension-wise)")
     for k, (st, lp) in enumerate(l_assigns):
         same = r_assign is not None and lp["factor"] == r_assign[1]["factor"] and lp["A"] == r_assign[1]["A"]
@@ -584,16 +591,20 @@ def check_dimension_wise_gradient_gram(prog, ctx):
             loops = [l for l in R.enclosing_loops(iff) if isinstance(l, ast.For) and isinstance(l.target, ast.Name)]
             if len(loops) >= 2:
                 t = tm.term(iff.test)
-                if t[0] == "cmp" and t[1] == "Eq" and {t[2], t[3]} == {("n", loops[-1].target.id), ("n", loops[-2].target.id)}:
-                    split = (iff, loops[-2], loops[-1])
+                neg = False
+                if t[0] == "not":
+                    t, neg = t[1], True
+                if t[0] == "cmp" and t[1] in ("Eq", "NotEq") and {t[2], t[3]} == {("n", loops[-1].target.id), ("n", loops[-2].target.id)}:
+                    same_first = (t[1] == "Eq") != neg
+                    split = (iff, loops[-2], loops[-1], iff.body if same_first else iff.orelse, iff.orelse if same_first else iff.body)
                     break
     if split is None:
         raise AnalysisError("anchor vanished: the `inner dimension == differentiated dimension` split in %s" % fi.qual)
-    iff, outer, inner = split
+    iff, outer, inner, stiff_body, mass_body = split
     dv, nv = outer.target.id, inner.target.id
     # a
-    wrong = [x for st in iff.orelse for x in ast.walk(st) if isinstance(x, ast.Subscript) and isinstance(x.slice, ast.Name) and x.slice.id == dv]
-    right = [x for st in iff.orelse for x in ast.walk(st) if isinstance(x, ast.Subscript) and isinstance(x.slice, ast.Name) and x.slice.id == nv]
+    wrong = [x for st in mass_body for x in ast.walk(st) if isinstance(x, ast.Subscript) and isinstance(x.slice, ast.Name) and x.slice.id == dv]
+    right = [x for st in mass_body for x in ast.walk(st) if isinstance(x, ast.Subscript) and isinstance(x.slice, ast.Name) and x.slice.id == nv]
     ctx.check(not wrong and bool(right), "C20.D8", R.key_of(fi, "mass-factor-of-own-dimension"), fi.loc(wrong[0]) if wrong else fi.loc(iff),
               "the mass factors of the dimensions n != d are computed from the hats' data of dimension n",
               "in the branch `%s != %s` (mass factor of dimension %s) %d subscripts read dimension `%s` of the hats (first: `%s`, line %d) instead of "
@@ -615,7 +626,7 @@ def check_dimension_wise_gradient_gram(prog, ctx):
              ((isinstance(n.ast, ast.AugAssign) and isinstance(n.ast.op, ast.Mult) and isinstance(n.ast.value, ast.Constant) and n.ast.value.value == 0)
               or (isinstance(n.ast, ast.Assign) and isinstance(n.ast.targets[0], ast.Name) and isinstance(n.ast.value, ast.Constant) and n.ast.value.value == 0
                   and any(p_.ast.target.id == n.ast.targets[0].id for p_ in prods)))
-             and any(n.ast is y for st in iff.body for y in ast.walk(st))]
+             and any(n.ast is y for st in stiff_body for y in ast.walk(st))]
     ctx.check(bool(zeros), "C20.D8", R.key_of(fi, "disjoint-supports-zero"), fi.loc(iff),
               "the stiffness term of hats with disjoint supports is zeroed",
               "no branch of the differentiated dimension zeroes the stiffness term of hats with disjoint supports")
